@@ -367,7 +367,10 @@ Definition cancel_self_pc (id i : nat) : pc := commits [[QMark id; QPush (MCance
 
 Definition after_choice_check (st : stage) : pc := SClaim st.
 Definition after_mutex_check (st : stage) : pc :=
-  match s_choice (eff st) with Some _ => SReadChoice st | None => after_choice_check st end.
+  match s_choice (eff st) with
+  | Some _ => if choice_fast_guard (s_status (eff st)) then SReadChoice st else after_choice_check st
+  | None => after_choice_check st
+  end.
 
 Definition after_ups (s : state) (id i : nat) (retry : Z) (st : stage) : pc :=
   let ups := upstream s st in
